@@ -251,7 +251,7 @@ def r1_wiring(ctx):
     found = None
     for n in ast.walk(bfn):
         if isinstance(n, ast.If) and isinstance(n.test, ast.Compare) and isinstance(n.test.ops[0], ast.NotIn) \
-                and path_of(n.test.left) == 'seg_id' and isinstance(n.test.comparators[0], (ast.Tuple, ast.List, ast.Set)):
+                and path_of(n.test.left) in ('seg_id', 'seg_data.get_seg_id()') and isinstance(n.test.comparators[0], (ast.Tuple, ast.List, ast.Set)):
             incs = [s for s in n.body if isinstance(s, ast.AugAssign) and path_of(s.target) == 'self.seg_count']
             if incs:
                 found = (n, {A.const(x) for x in n.test.comparators[0].elts}, incs)
